@@ -32,7 +32,7 @@ class C02(Check):
         "tactics 1, 3: modelled and compared, soundness judged per run (no theorem)",
     ]
     assumptions = ["floats denote exact rationals; numeric reading of the property"]
-    min_branches = {"ok": 60, "IncompatibleArgsError": 20, "from-composition": 60}
+    min_branches = {"ok": 60, "IncompatibleArgsError": 20, "from-composition": 60, "g1-implies-a1": 10}
 
     def generate(self, rng, n, tier):
         C.setup_pacti()
@@ -42,6 +42,18 @@ class C02(Check):
             tries += 1
             c1, h, w = K.gen_pair(rng)
             m = rng.random()
+            if m < 0.12:
+                # the dividend's assumptions do NOT imply the divisor's, but do once the divisor's guarantees are added, and those
+                # guarantees constrain a divisor output that becomes a quotient input
+                b = float(rng.randint(0, 3))
+                k = float(rng.choice([1, 2]))
+                divisor = {"ins": ["u"], "outs": ["o"], "a": [{"c": {"u": k}, "k": k * b}],
+                           "g": rng.choice([[{"c": {"o": -1.0}, "k": 0.0}, {"c": {"o": 1.0, "u": 1.0}, "k": b}],
+                                            [{"c": {"u": 1.0, "o": -1.0}, "k": 0.0}, {"c": {"o": 1.0}, "k": b}]])}
+                dividend = {"ins": ["i"] + (["u"] if rng.random() < 0.4 else []), "outs": ["p"], "a": [{"c": {"i": 1.0}, "k": float(rng.randint(1, 6))}],
+                            "g": [{"c": {"p": 1.0, "i": -1.0}, "k": float(rng.randint(0, 3))}]}
+                out.append({"op": "quotient", "c1": dividend, "c2": divisor, "addl": [], "simplify": rng.random() < 0.6, "order": rand_order(rng), "tag": "g1-implies-a1"})
+                continue
             if m < 0.65:
                 try:
                     top = G.un_contract(G.mk_contract(c1, simplify=False).compose(G.mk_contract(h, simplify=False)))
